@@ -368,9 +368,115 @@ def header_receiver(c):
     c.timeout_s = max(c.timeout_s, 240)
 
 
+# ===================================================================================== 3. wiring (caller-side obligations)
+# The two contracts above cut at the HeaderPacketReceiver's ports: sink (receive words), retry_received / retry_required (the
+# partner's LRTY / LBAD as reported by the link command detector that lives in the PacketTransmitter), enable / usb_reset, the
+# header queue to the protocol layer, and the link-command source.  The obligations below are stated on the netlist of the
+# real parent USB3LinkLayer (all interface signals free inputs), reaching through the sub-unit hookups down to the real
+# RawHeaderPacketReceiver / LinkCommandDetector / LinkCommandGenerator instances.
+LGO_U = 4
+
+
+class LinkLayerUnits:
+    """The real USB3LinkLayer (open interfaces, see c46.open_link_layer) and the real sub-unit instances its elaborate() created."""
+    def __init__(self, c, freq=125e6):
+        from luna.gateware.usb.usb3.link.command import LinkCommandDetector
+        from luna.gateware.usb.usb3.link.ltssm import LTSSMController
+        from luna.gateware.usb.usb3.link.timers import LinkMaintenanceTimers
+        from luna.gateware.usb.usb3.link.idle import IdleHandshakeHandler
+        from luna.gateware.usb.usb3.link.transmitter import PacketTransmitter, RawPacketTransmitter
+        from luna.gateware.usb.usb3.link.data import DataPacketReceiver, DataPacketTransmitter
+        from luna.gateware.usb.usb3.link.header import HeaderQueueArbiter
+        from luna.gateware.usb.usb3.link.ordered_sets import TSTransceiver
+        from luna.gateware.usb.usb3.link.compliance import CompliancePatternEmitter
+        from luna.gateware.usb.stream import SuperSpeedStreamArbiter
+        from .c46_ss_in_endpoint import open_link_layer, same
+        self.d, self.phy, self.ts = d, phy, ts = open_link_layer(c, freq)
+        self.of = ts.of
+        one = ts.instance
+        self.hrx, self.raw = one(rx_mod.HeaderPacketReceiver), one(rx_mod.RawHeaderPacketReceiver)
+        self.det, self.gen = one(LinkCommandDetector), one(LinkCommandGenerator)
+        self.ltssm, self.tm, self.idle = one(LTSSMController), one(LinkMaintenanceTimers), one(IdleHandshakeHandler)
+        self.ptx, self.raw_tx = one(PacketTransmitter), one(RawPacketTransmitter)
+        self.data_rx, self.data_tx = one(DataPacketReceiver), one(DataPacketTransmitter)
+        self.hp_mux, self.arb = one(HeaderQueueArbiter), one(SuperSpeedStreamArbiter)
+        self.tsx, self.compliance = one(TSTransceiver), one(CompliancePatternEmitter)
+        self.S = lambda a, b: same(ts, a, b)
+
+    def is_cmd(self, code):
+        return z3.And(self.of(self.det.new_command) == 1, self.of(self.det.command) == code)
+
+
+def as_bit(cond):
+    return z3.If(cond, bvc(1, 1), bvc(0, 1))
+
+
+def lemmas_enable_and_reset(c, U, unit, name, clause):
+    """`unit`.enable / .usb_reset (HeaderPacketReceiver or PacketTransmitter) are the link's U0 / reset state."""
+    of, S, d, phy, ltssm = U.of, U.S, U.d, U.phy, U.ltssm
+    c.lemma(f"{name}_enable_is_link_ready", S(unit.enable, ltssm.link_ready), clause=clause + ": enable = LTSSM link_ready (U0)")
+    c.lemma(f"{name}_usb_reset_is_link_in_reset",
+            z3.And(S(unit.usb_reset, d.in_reset), of(d.in_reset) == (of(ltssm.request_hot_reset) | of(ltssm.in_usb_reset)),
+                   of(ltssm.in_usb_reset) == (of(phy.lfps_reset_detected) | ~of(phy.vbus_present))),
+            clause=clause + ": usb_reset = hot reset requested, or warm-reset LFPS detected, or VBUS absent")
+
+
+def lemmas_receive_stream(c, U, sinks, clause):
+    """Every named receiver looks at the physical layer's descrambled, aligned receive stream."""
+    from .c46_ss_in_endpoint import stream_same
+    for name, sink in sinks:
+        c.lemma(f"{name}_sees_the_physical_layer_receive_stream", stream_same(U.ts, sink, U.phy.source), clause=clause)
+
+
+def lemmas_link_commands_reach_the_phy(c, U):
+    from .c46_ss_in_endpoint import stream_same, raw_stream_to_phy
+    ts, S, hrx, gen = U.ts, U.S, U.hrx, U.gen
+    c.lemma("receiver_source_is_link_command_generator",
+            z3.And(stream_same(ts, hrx.source, gen.source), S(gen.source.ready, hrx.source.ready), S(hrx.link_command_sent, gen.done)),
+            clause="link commands are put on the wire by the LinkCommandGenerator inside HeaderPacketReceiver (C35): its stream is the receiver's source")
+    raw_stream_to_phy(c, ts, U.arb, 2, hrx.source, gen.source, "link_command_generator", U.phy, "lc")
+
+
+def link_layer_header_rx_wiring(c):
+    from .c46_ss_in_endpoint import header_queue_consumer_sees
+    U = LinkLayerUnits(c)
+    of, S, ts, d, hrx, ptx, tm = U.of, U.S, U.ts, U.d, U.hrx, U.ptx, U.tm
+    # ---- receive words
+    lemmas_receive_stream(c, U, [("header_receiver", hrx.sink), ("raw_header_receiver", U.raw.sink), ("link_command_detector", U.det.sink)],
+                          clause="A received header packet ... until the partner's retry: HeaderPacketReceiver.sink, the RawHeaderPacketReceiver "
+                                 "inside it, and the link command detector (inside PacketTransmitter) see the same receive stream")
+    # ---- the partner's retry (LRTY) and retry request (LBAD)
+    c.lemma("retry_received_is_partner_LRTY", of(hrx.retry_received) == as_bit(U.is_cmd(LRTY)),
+            clause="all further headers are ignored until the partner's retry: HeaderPacketReceiver.retry_received is raised exactly when the "
+                   "link command detector reports an LRTY (discharges the reading of retry_received in `retry_only_in_response_to_lbad`)")
+    c.lemma("retry_required_is_partner_LBAD", of(hrx.retry_required) == as_bit(U.is_cmd(LBAD)),
+            clause="HeaderPacketReceiver.retry_required (schedules our LRTY) is raised exactly when the detector reports the partner's LBAD")
+    c.lemma("transmitter_waits_for_our_lrty", S(ptx.lrty_pending, hrx.lrty_pending),
+            clause="the transmitter holds retransmissions back while the receiver still owes the LRTY")
+    c.lemma("power_state_requests_are_rejected",
+            z3.And(of(hrx.reject_power_state) == as_bit(U.is_cmd(LGO_U)), of(hrx.accept_power_state) == 0, of(hrx.acknowledge_power_state) == 0),
+            clause="(frame) LXU is requested exactly on a received LGO_Ux; LAU / LPMA never")
+    # ---- "while the link stays in U0": enable / reset
+    lemmas_enable_and_reset(c, U, hrx, "header_receiver", "while the link stays in U0")
+    # ---- accepted headers are offered to the protocol layer
+    c.lemma("protocol_layer_header_queue_is_receiver_queue",
+            z3.And(header_queue_consumer_sees(ts, d.header_source, hrx.queue), S(hrx.queue.ready, d.header_source.ready)),
+            clause="each accepted header is offered to the protocol layer exactly once and in order: the layer's header_source is the "
+                   "receiver's queue (valid, every header field; ready back)")
+    # ---- LGOOD / LCRD / LBAD / LRTY reach the wire
+    lemmas_link_commands_reach_the_phy(c, U)
+    # ---- timers / recovery
+    c.lemma("keepalive_request_comes_from_link_timers", S(hrx.keepalive_required, tm.schedule_keepalive))
+    c.lemma("timers_see_received_headers", S(tm.packet_received, U.raw.new_packet))
+    c.lemma("sequence_error_triggers_link_recovery",
+            of(U.ltssm.trigger_link_recovery) == (of(tm.transition_to_recovery) | of(hrx.recovery_required) | of(ptx.recovery_required)),
+            clause="(USB 3.2 §7.2.4.1.5) a header with an unexpected sequence number sends the link to recovery")
+
+
 def contracts(tier):
     yield ("RawHeaderPacketReceiver", "", raw_receiver)
     yield ("HeaderPacketReceiver", "u0", header_receiver)
+    yield ("USB3LinkLayer", "wiring_header_rx", link_layer_header_rx_wiring)
 
 
 LEVEL = "proof"
